@@ -1723,6 +1723,14 @@ impl<'a, MutexType, T> FusedFuture for ChannelReceiveFuture<'a, MutexType, T> {'
         }
 
         /// Creates a new oneshot channel which can be used to exchange values"""}]},
+    # independent, substantial behaviour-preserving refactorings (sub-agents saw only the crate): benign/<id>/
+    {'name': 'benign-refactor-RF1-mutex', 'props': ALLP + ['C16'], 'patch': 'benign/RF1/patch.diff'},
+    {'name': 'benign-refactor-RF2-semaphore', 'props': ALLP + ['C16'], 'patch': 'benign/RF2/patch.diff'},
+    {'name': 'benign-refactor-RF3-mpmc-state-and-wrappers', 'props': ALLP + ['C16'], 'patch': 'benign/RF3/patch.diff'},
+    {'name': 'benign-refactor-RF4-event-and-timer', 'props': ALLP + ['C16'], 'patch': 'benign/RF4/patch.diff'},
+    {'name': 'benign-refactor-RF5-oneshot-broadcast-state', 'props': ALLP + ['C16'], 'patch': 'benign/RF5/patch.diff'},
+    {'name': 'benign-refactor-RF6-buffers-list-heap', 'props': ALLP + ['C16'], 'patch': 'benign/RF6/patch.diff'},
+    {'name': 'benign-refactor-RF7-channel-futures-and-shared-flavours', 'props': ALLP + ['C16'], 'patch': 'benign/RF7/patch.diff'},
     {'name': 'benign-unrelated-additions', 'props': ALLP, 'edits': [
         {'file': 'src/sync/semaphore.rs',
          'old': '''    /// Returns the amount of permits that are available on the semaphore
